@@ -244,7 +244,9 @@ def run_noise(step):
     return call(athlib.wma_age_factor, g, age, code, year=year)
 
 
-NOISE_CODES = ['5K', 'MAR', '10000', 'HJ', 'SP', '3000SC', 'NOPE', '', '7.5K', '0', 'mile', '100H']
+NOISE_CODES = ['5K', 'MAR', '10000', 'HJ', 'SP', '3000SC', 'NOPE', '', '7.5K', '0', 'mile', '100H',
+               # walks, tabulated and not (another section of the table), hurdles and steeplechase distances that are not rows
+               '3000W', '5000W', '12KW', '20KW', '1500W', '3KW', '50KW', '7000W', '300H', '2000SC', '1500SC', '4x400']
 
 
 def shard_mixed(ctx, payload):
